@@ -49,6 +49,7 @@ type gramRun struct {
 	profiles []profile
 	line     int
 	prevRoot ast.Node
+	prevC04  ast.Node
 	seed     int64
 	walkBasic bool
 }
@@ -201,6 +202,20 @@ func (g *gramRun) sentence(s *sentence) {
 		}
 	}
 	checkSpans(plain, text0, starts0, ends0, n0)
+
+	// ---- C04: SQL/Pos/End on every node, traversals (also pairs of trees for the *Many variants) -----
+	if g.want("C04") {
+		g.eval("C04")
+		var ret pRet
+		exercise([]ast.Node{n0}, &ret)
+		if g.prevC04 != nil {
+			exerciseMany([]ast.Node{g.prevC04, n0}, &ret)
+		}
+		g.prevC04 = n0
+		for _, f := range ret.Fails {
+			g.find("C04", "method-panic", s, plain.Name, text0, fmt.Sprintf("%s.%s: %s", f.Kind, f.Method, f.Msg))
+		}
+	}
 
 	// ---- unparse: C04 totality, C02 lossless, C01 round trip ------------------------------------
 	sql1, panS := safeSQL(n0)
